@@ -185,11 +185,22 @@ def analyse(led, it, res, func, tag, sparse, Kt, Mt, replay):
                 nm_asc = name + '/ascending-order'
                 if not perms:
                     led.fail(nm_asc, func, {'differences': ['sort=True but the values are not permuted by a sort']}, signature='no-sort')
+                elif not (isinstance(perms[0][1][1], tuple) and len(perms[0][1][1]) >= 1 and isinstance(perms[0][1][1][-1], tuple)
+                          and perms[0][1][1][-1][:1] == ('real',) and norm(perms[0][1][1][-1][1]) == norm(vbase)):
+                    led.fail(nm_asc, func, {'differences': ['the primary sort key (the last key of lexsort) is %r, expected the real part of the frequencies themselves'
+                                                            % (perms[0][1][1][-1] if perms[0][1][1] else None,)]}, signature='sort-key-order')
                 elif has_round(perms[0]):
                     led.fail(nm_asc, func, {'differences': ['the sort key is rounded (%r): frequencies closer than the rounding step keep the order of the eigen-solver, '
                                                             'which is not ascending in general' % (perms[0][1][1],)]}, signature='sort-key-rounded', replay=replay_rounded_sort())
                 else:
                     led.ok(nm_asc, func)
+        if solver and 'sort=True' in tag:
+            masks = [x for x in vsel if isinstance(x, tuple) and x and x[0] == 'mask']
+            for mk_ in masks:
+                c_ = mk_[1]
+                if not (isinstance(c_, tuple) and len(c_) == 4 and c_[0] == 'cmp' and c_[1] == '>' and isinstance(c_[2], tuple) and c_[2][:1] == ('real',)):
+                    probs.append('after sorting, the pairs are filtered by %r; the only filter of the contract keeps the pairs with a positive real part (each of them, '
+                                 'also both members of a numerically split repeated frequency)' % (c_,))
         if probs:
             led.fail(name + '/post', func, {'differences': probs}, signature=';'.join(probs)[:150], replay=replay(None) if replay else None)
         else:
